@@ -7,15 +7,20 @@ import (
 	"github.com/bartventer/httpcache/internal"
 )
 
-// seedKey stores a minimal fresh entry (and its one-element index) under urlKey.
+// seedKey stores minimal fresh entries (and their index) under urlKey.
 func (w *vxWorld) seedKey(urlKey string, variants int) {
 	var refs internal.ResponseRefs
 	for i := 0; i < variants; i++ {
 		id := urlKey + "#" + string(rune('0'+i))
 		e := &vxResponse{ID: id, Data: &http.Response{StatusCode: 200, Header: http.Header{
 			"Date": []string{"Thu, 01 Jan 2026 00:00:00 GMT"}, "Cache-Control": []string{"max-age=999999"}, vxTagHeader: []string{"stored"}}, Body: &vxBodyT{tag: 0}}}
+		ref := &internal.ResponseRef{ResponseID: id}
+		if i == 1 { // the second variant is one that no request can select ("Vary: *")
+			e.Data.Header["Vary"] = []string{"*"}
+			ref.Vary, ref.VaryResolved = "*", map[string]string{"*": ""}
+		}
 		_ = w.rt.cache.Set(id, e)
-		refs = append(refs, &internal.ResponseRef{ResponseID: id})
+		refs = append(refs, ref)
 	}
 	if variants > 0 {
 		_ = w.rt.cache.SetRefs(urlKey, refs)
